@@ -518,6 +518,10 @@ class Command:
                 )
                 if condition:
                     self.curarg = curarg
+                if "tag" not in curarg["type"]:
+                    # optional positional argument: following ones must
+                    # go to the next slots, not overwrite this one
+                    self.nextargpos = pos + 1
                 if add:
                     self.arguments[curarg["name"]] = avalue
                 break
